@@ -62,6 +62,24 @@ class _Normalise(ast.NodeTransformer):
         return node
 
 
+_REF = None
+
+
+def _local_names_ref():
+    """spec/local_names.json: reference spellings of locals (see sa/roles.py)"""
+    global _REF
+    if _REF is None:
+        import json
+
+        p = os.path.join(os.path.dirname(os.path.dirname(os.path.abspath(__file__))), "spec", "local_names.json")
+        try:
+            with open(p, encoding="utf-8") as f:
+                _REF = json.load(f)
+        except OSError:
+            _REF = {}
+    return _REF
+
+
 class Module:
     def __init__(self, name, path, text):
         self.name = name  # e.g. "pecc"
@@ -84,6 +102,22 @@ class Module:
     def _index(self):
         for st in self.tree.body:
             self._index_stmt(st)
+        # canonical names for the locals some rules talk about (sa/roles.py, table in spec/roles.py)
+        from spec.roles import ROLES
+        from .roles import apply_reference, apply_roles
+
+        self.roles_applied = {}
+        self.renamed = {}
+        ref = _local_names_ref()
+        for qn, fn in self.functions.items():
+            for variant in ref.get("%s:%s" % (self.name, qn), []):
+                mp = apply_reference(fn, variant)
+                if mp:
+                    self.renamed[qn] = mp
+                    break
+            rs = ROLES.get("%s:%s" % (self.name, qn))
+            if rs:
+                self.roles_applied[qn] = apply_roles(fn, rs)
 
     def _index_stmt(self, st, prefix=""):
         if isinstance(st, (ast.FunctionDef, ast.AsyncFunctionDef)):
